@@ -9,6 +9,8 @@ let zrows rows = List.map zl rows
 let irows rows = List.map il rows
 let group comps = String.concat " /" (List.map (fun rows -> sp (List.concat rows)) comps)
 let rec pairs = function a :: b :: t -> (a, b) :: pairs t | _ -> []
+(* the harness repeats the last (psv, pt) pair for the remaining components *)
+let rec pad_pairs n l = if List.length l >= n || l = [] then take n l else pad_pairs n (l @ [List.nth l (List.length l - 1)])
 let () = iter_lines (fun line ->
   let fs = fields line in
   let hd = words (List.nth fs 0) in
@@ -47,7 +49,7 @@ let () = iter_lines (fun line ->
   | "api" :: kind :: rest ->
       let a = List.map int_of_string rest in
       let prec = List.nth a 0 and w = List.nth a 1 and nc = List.nth a 3 and ri = List.nth a 4 in
-      let pp = pairs (ints_of (List.nth fs 1)) in
+      let pp = pad_pairs nc (pairs (ints_of (List.nth fs 1))) in
       let planes = List.map (fun f -> split_rows w (ints_of f)) (take nc (drop 2 fs)) in
       let enc = List.map2 (fun (psv, pt) rows ->
           enc_component (zi ri) (zi w) (zi psv) (zi prec) (zi pt) (zrows rows)) pp planes in
@@ -62,7 +64,7 @@ let () = iter_lines (fun line ->
   | "inj" :: rest ->
       let a = List.map int_of_string rest in
       let prec = List.nth a 0 and w = List.nth a 1 and nc = List.nth a 3 and ri = List.nth a 4 in
-      let pp = pairs (ints_of (List.nth fs 1)) in
+      let pp = pad_pairs nc (pairs (ints_of (List.nth fs 1))) in
       let planes = List.map (fun f -> split_rows w (ints_of f)) (take nc (drop 2 fs)) in
       let dd = List.map (fun rows -> List.map (List.map canon_diff) (zrows rows)) planes in
       let out = List.map2 (fun (psv, pt) d ->
